@@ -10,7 +10,7 @@
 (***************************************************************************)
 EXTENDS Naturals, Sequences, FiniteSets, TLC
 
-Faults == {"none", "invalid", "config", "bind", "reject", "uploads", "disconnect_create", "disconnect_wait", "disconnect_unsub", "cancel_wait"}
+Faults == {"none", "invalid", "config", "bind", "reject", "uploads", "disconnect_create", "disconnect_wait", "disconnect_unsub", "cancel_wait", "subscribe"}
 
 VARIABLES
   cfgNow,    \* the configuration is available when listen() is called (no Deferred to wait for)
@@ -30,7 +30,7 @@ VARIABLES
 
 vars == <<cfgNow, fault, others, step, pendOut, localOpen, loop, asked, exists, result, why, nres, stopped>>
 
-Init == /\ cfgNow \in BOOLEAN /\ fault \in Faults /\ (cfgNow => fault # "config") /\ others \in BOOLEAN /\ (others => fault # "disconnect_unsub") /\ step = "idle" /\ pendOut = "" /\ localOpen = FALSE /\ loop = FALSE /\ asked = FALSE /\ exists = FALSE
+Init == /\ cfgNow \in BOOLEAN /\ fault \in Faults /\ (cfgNow => fault # "config") /\ others \in BOOLEAN /\ (others => fault \notin {"disconnect_unsub", "subscribe"}) /\ step = "idle" /\ pendOut = "" /\ localOpen = FALSE /\ loop = FALSE /\ asked = FALSE /\ exists = FALSE
         /\ result = "p" /\ why = "" /\ nres = 0 /\ stopped = FALSE
 
 Fail(w) == result' = "err" /\ why' = w /\ nres' = nres + 1 /\ step' = "failed"
@@ -60,6 +60,9 @@ ConfigReady == step = "config" /\ Proceed
 CreateReply ==
   /\ step = "create" /\ fault \notin {"disconnect_create"}
   /\ IF fault = "reject" THEN Fail("reject") /\ localOpen' = FALSE /\ UNCHANGED exists
+     \* Tor has refused the subscription to its descriptor events (answered before the creation command): the descriptor
+     \* wait has failed before it began, and listen fails with that error once the creation command is answered
+     ELSE IF fault = "subscribe" THEN Fail("subscribe") /\ localOpen' = FALSE /\ exists' = TRUE
      ELSE exists' = TRUE /\ step' = "wait" /\ UNCHANGED <<localOpen, result, why, nres>>
   /\ UNCHANGED <<cfgNow, fault, others, pendOut, loop, asked, stopped>>
 
